@@ -367,7 +367,9 @@ def run(chk, tier):
     texts = ci.valid_texts(tier, chk.seed)
     mseed = 0 if tier == "quick" else chk.seed % 1000
     mtexts = texts if not only or "mutant" in only else texts[:2]        # (development run without the mutants: two texts)
-    f_mut = ex.submit(ci.mutant_family, chk, d, mtexts, stride, cstride, mseed, maxq, 9 if tier == "quick" else 14)
+    # (one single-threaded TLC per shard; the bound is generous because a shared machine slows each of them down)
+    f_mut = ex.submit(ci.mutant_family, chk, d, mtexts, stride, cstride, mseed, maxq, 9 if tier == "quick" else 16,
+                      2700 if tier == "quick" else 7200)
     f_enum = ex.submit(ci.enum_family, chk, d, enum_parts, 10 if tier == "quick" else 14)
     f_dirs = ex.submit(ci.dirs_family, chk, d, dirlen)
     f_stress = ex.submit(ci.stress_family, chk, d)
